@@ -62,6 +62,9 @@ def check_c19(tier):
         raise Infra("negative control failed for Trace_Writer: %s" % rj)
     rep.add("negative_control", corrupted_records_rejected=2)
     rep.assumptions = ["the fault is sticky; serializers are deterministic for the chosen artefacts (ECDSA signatures are made before the faulty run)"]
+    # the source side of CountingWriter.ReadFrom (ReaderFaults.tla)
+    from rf_checks import reader_faults
+    reader_faults(rep, "C19", ["readfrom"], tier)
     return rep.finish()
 
 
